@@ -157,10 +157,10 @@ def hyper_moves(groups: list[dict], keys=("mom", "b1", "wd", "lr")) -> list[tupl
         for key in keys:
             if key == "mom" and g["mom0"] == 0 or key == "b1" and g["b10"] == 0:
                 continue  # no buffer was ever allocated: outside the documented domain
-            vals = {"mom": (0, 1, 2), "b1": (0, 1, 2), "wd": (0, 1), "lr": (0, 1, 2)}[key]     # index 0 is the value 0.0
+            vals = {"mom": (0, 1, 2), "b1": (0, 1, 2), "wd": (0, 1), "lr": (0, 1, 2), "freq": (1, 2, 3)}[key]     # index 0 is the value 0.0 (freq: the period itself)
             out += [(gi, key, v) for v in vals]
     if len(groups) > 1:          # scheduler moves: every group at once (group index 0)
         for key in keys:
-            if key in ("lr", "wd") or all(g["mom0" if key == "mom" else "b10"] != 0 for g in groups):
-                out += [(0, key, v) for v in {"mom": (0, 1, 2), "b1": (0, 1, 2), "wd": (0, 1), "lr": (0, 1, 2)}[key]]
+            if key in ("lr", "wd", "freq") or all(g["mom0" if key == "mom" else "b10"] != 0 for g in groups):
+                out += [(0, key, v) for v in {"mom": (0, 1, 2), "b1": (0, 1, 2), "wd": (0, 1), "lr": (0, 1, 2), "freq": (1, 2, 3)}[key]]
     return out
